@@ -431,7 +431,8 @@ class Gen:
         elif k == 'bus_setn':
             self.emit({'op': k, 'u': u, 'values': nums(0, ch)})
         elif k == 'bus_set_at':
-            self.emit({'op': k, 'u': u, 'offset': r.randint(0, ch - 1), 'values': nums(1, 2)})
+            off = r.randint(0, ch - 1)      # stay inside the bus (the docstring warns about writing past it)
+            self.emit({'op': k, 'u': u, 'offset': off, 'values': nums(1, min(2, ch - off))})
         elif k == 'bus_setn_at':
             self.emit({'op': k, 'u': u, 'offset': r.randint(0, ch - 1), 'values': nums(0, 2)})
         elif k == 'bus_set_pairs':
